@@ -7,6 +7,7 @@ import (
 	"testing"
 
 	"github.com/cloudflare/circl/internal/zzverif/lib"
+	"github.com/cloudflare/circl/internal/zzverif/ref/mldsa"
 	"github.com/cloudflare/circl/sign"
 	"github.com/cloudflare/circl/sign/ed25519"
 	"github.com/cloudflare/circl/sign/ed448"
@@ -88,6 +89,38 @@ func sigKinds() []kind {
 			}
 			o.OutBool("verify-msg", s.Verify(pk, append(lib.Clone(msg), 0), sig, opts))
 		}})
+		if rp := mldsa.ByName(s.Name()); rp != nil {
+			// keys whose matrix seed makes ExpandA's rejection sampler see a
+			// candidate equal to q (about one seed in 1000; the seed is found
+			// with the reference sampler and put into a key built from chosen
+			// seeds): the four-way and the scalar sampler must reject it alike
+			ks = append(ks, kind{"sig.boundary-rho." + n, 2, 40, func(r *lib.Rng, k int, o *rec) {
+				tag := r.Bytes(16)
+				rho, bi, bj, ok := rp.BoundaryRho(tag, 20000)
+				if !ok {
+					return
+				}
+				lib.Count("c14/Sig/boundary-rho-keys")
+				rpk, rsk, _ := rp.KeyFromSeeds(rho, r.Bytes(64), r.Bytes(32))
+				msg := r.Bytes(33)
+				o.In("rho", rho)
+				o.In("entry", []byte{byte(bi), byte(bj)})
+				pk, e1 := s.UnmarshalBinaryPublicKey(rpk)
+				sk, e2 := s.UnmarshalBinaryPrivateKey(rsk)
+				o.OutErr("pk.err", e1)
+				o.OutErr("sk.err", e2)
+				if e1 != nil || e2 != nil {
+					return
+				}
+				sig := s.Sign(sk, msg, nil)
+				o.Out("sig", sig)
+				o.OutBool("verify", s.Verify(pk, msg, sig, nil))
+				if pub, ok := sk.Public().(sign.PublicKey); ok {
+					b, _ := pub.MarshalBinary()
+					o.Out("sk.public", b)
+				}
+			}})
+		}
 		ks = append(ks, kind{"sigverify-hostile." + n, q * 2 / 3, t / 2, func(r *lib.Rng, k int, o *rec) {
 			seed := r.Bytes(s.SeedSize())
 			msg := r.Bytes(r.Intn(80))
@@ -226,6 +259,6 @@ func sigKinds() []kind {
 }
 
 func TestVerifTranscriptSig(t *testing.T) {
-	lib.Mandatory("c14/Sig/verify-accept", "c14/Sig/verify-reject", "c14/Sig/hostile-pk-decoded")
+	lib.Mandatory("c14/Sig/verify-accept", "c14/Sig/verify-reject", "c14/Sig/hostile-pk-decoded", "c14/Sig/boundary-rho-keys")
 	runArea(t, "Sig", sigKinds())
 }
